@@ -268,6 +268,18 @@ class DecTheory(ObjTheory):
                 if ex.path.choose(2, "quantity_cls") == 0:
                     return ObjV("val")
                 raise PyRaise(ExcV("ValueError"))
+            if n == "for_try_except" and len(args) == 3 and type(args[1]).__name__ == "LambdaV" and isinstance(args[2], TupV) \
+                    and isinstance(args[0], FuncV):
+                # the helper applied to a written-out function over a tuple display: its contract (the first application that
+                # does not raise the given exception class, else that exception) element by element
+                from .core import exc_isa
+                for x in args[2].items:
+                    try:
+                        return ex.call_lambda(args[1], [x])
+                    except PyRaise as pr:
+                        if not exc_isa(pr.exc.cls, args[0].name):
+                            raise
+                raise PyRaise(ExcV(args[0].name))
             if n == "for_try_except":
                 # assumed contract of the helper: the first successful application or the exception class
                 fam = args[3] if len(args) > 3 else None
